@@ -31,12 +31,23 @@ Alphabet / bound / oracle per sub-check (all complete enumerations of the stated
            boundary and with the rectangle / simplex boundaries (1-d: rectangle; an empty half axis gets the truncation of
            a half axis of one point), 2-d also over the pairings the factory does not take (RosenbergStrong, Cantor,
            PepisKalmar, thorough: hyperbolic): every admissible non-origin state exactly once, then exhaustion; then the
-           restart protocol (x == max_logged) driven directly for three log sizes.
+           restart protocol of the sampler driven directly (project(0); a walk into the states beyond the log; a restart
+           right after the log for two states; a restart up to exhaustion, signalled exactly after the last state; a
+           restart after exhaustion) for every log size m in {1, n/2, n-2} + {256, 257, 300, 32768, 65536 where the chain
+           is longer} (CPython shares the int objects -5..256 only; 16-bit limits) and every form of the two arguments:
+           project(m, m) with ONE object, max_logged an equal int that is another object while x is computed by the caller
+           (x = len(log) - 1; x += 1: what InversionMethod does), max_logged numpy.int64, x numpy.int64, keywords.
+           Sizes beyond those thresholds: chains of 600-1000 states (1-d [-350,650], one-sided [0,600], 2-d [-9,21]^2 with the
+           origin off centre, 2-d with a rectangle boundary) and one interval of 70 200 states.
  inversion the same enumeration observed where the library consumes it: a real InversionMethod on a real StatesManager
            (pairing chosen as create_sampling_inversion_method does), probabilities that record the states they are asked
            for, scripted u.  The log of the sampler is bounded (the library's bound of 1e6 states is scaled down by setting
            `_max_storage` to 1, 2, n/2, n-2 of the n admissible states, and left alone = log holds everything); thorough
-           has one interval of 1 000 033 states with the library's bound untouched.  Histories: EVERY word of `depth`
+           has one interval of 1 000 033 states with the library's bound untouched; on the chains of 600-1000 states the
+           bound is 256, 257, 300, n/2 (2-d in quick: 257, 300; thorough also 400, n-2) - an int object built at run time
+           like the sampler's own attribute, the counter x is computed by the sampler itself - and on the interval of 70 200
+           states 65536 (thorough also 32768; one sampler, one history with every ordered pair of targets); the size class of
+           the log (<= 256, > 256, >= 32768) is part of the violation key.  Histories: EVERY word of `depth`
            (2 or 3) draws over the targets {first state, last logged, first / second beyond the log, middle of the rest,
            last state, beyond the total mass (= exhaustion)}, each word on a fresh sampler, plus every (draw, deepcopy of
            the sampler, draw), (draw, copy.copy of the sampler, draw: depth 3 only) and (draw, a second sampler on a larger
@@ -105,7 +116,10 @@ ASSUMPTIONS = [
     "forms: an argument form the library rejects is outside the alphabet (counted); integer-valued forms only, values small "
     "enough that fixed-width numpy integers do not overflow",
     "inversion: the bound of the sampler's log (1e6 states in the library) is scaled down through its attribute "
-    "_max_storage (skipped and counted if the attribute does not exist); thorough has one case with the bound untouched",
+    "_max_storage (skipped and counted if the attribute does not exist); thorough has one case with the bound untouched; "
+    "scaled-down bounds include values on both sides of the interpreter's small-integer range (256 / 257, 300) and 65536",
+    "restart protocol driven directly: argument forms the unchanged library rejects are counted, except the two the sampler "
+    "can produce (one object for both arguments; equal ints that are different objects)",
     "numpy.random.choice (state handed out on exhaustion) is stubbed by 'first element' while the library runs; that state "
     "is not judged",
 ]
@@ -250,6 +264,10 @@ def cases(tier):
     for L in range(2, M1 + 1):
         for R in range(2, M1 + 1):
             out.append({"sub": "states", "shape": [[L, R]], "boundary": "rectangle"})
+    # sizes beyond the thresholds visible to an implementation: more than 256 states (CPython shares the int objects -5..256
+    # only: the restart protocol is driven with log sizes 256, 257, 300, half), and one interval beyond 65536 states
+    for shape, bnd in BIG_SHAPES + [([[200, 70000]], "none")]:
+        out.append({"sub": "states", "shape": shape, "boundary": bnd})
     # pairings in the dimensions the base class offers beyond the ones above (recursive d-dimensional pairing)
     out.append({"sub": "range-d", "pairing": "rosenbergstrong", "dim": 4, "zmax": 200_000 if thorough else 20_000, "n": 12 if thorough else 7})
     for name in ("szudzik", "pepiskalmar", "hyperbolic"):
@@ -284,6 +302,16 @@ def cases(tier):
         for storage in ("one", "two", "half", "all-but-two", "default"):
             deep = thorough or storage in ("two", "half")
             out.append({"sub": "inversion", "shape": shape, "boundary": bnd, "storage": storage, "depth": 3 if deep else 2})
+    # log bounds beyond the small-integer threshold of the interpreter (256) on chains with more states than that; the
+    # sampler computes its counter x (a new int object), the bound is its attribute: every word of 2 (thorough 3) draws
+    for shape, bnd in BIG_SHAPES:
+        for storage in (("256", "257", "300", "half") if (thorough or len(shape) == 1) else ("257", "300")) + (("400", "all-but-two") if thorough else ()):
+            out.append({"sub": "inversion", "shape": shape, "boundary": bnd, "storage": storage,
+                        "depth": 3 if (thorough and storage in ("257", "half")) else 2})
+    # beyond 65536 states: one sampler, one history in which every ordered pair of targets occurs
+    out.append({"sub": "inversion", "shape": [[200, 70000]], "boundary": "none", "storage": "65536", "depth": 0})
+    if thorough:
+        out.append({"sub": "inversion", "shape": [[200, 70000]], "boundary": "none", "storage": "32768", "depth": 0})
     if thorough:
         # the library's own bound, untouched: an interval with more states than the log holds, one sampler, one history
         # of draws in which every ordered pair of targets occurs
@@ -325,6 +353,8 @@ def cases(tier):
 
 
 REUSE_OPS = ["refine", "regrid", "boundary", "copy", "dill", "other", "half"]
+# chains with 600-1000 states (1-d two-sided / one-sided, 2-d with the origin off centre, 2-d with a boundary)
+BIG_SHAPES = [([[350, 650]], "none"), ([[0, 600]], "none"), ([[9, 21], [9, 21]], "none"), ([[12, 18], [12, 20]], "rectangle")]
 
 
 # ----------------------------------------------------------------------------------------------------------------------
@@ -993,6 +1023,92 @@ def make_grid(shape):
     return CTMCGrid(h=1.0, origin_coordinate=left, axes=axes)
 
 
+# sizes of the caller's log beyond which an implementation detail of the interpreter / of fixed-width integers changes: CPython
+# shares the int objects -5..256 only (256 is the last shared one), 16-bit limits
+_LOG_THRESHOLDS = (256, 257, 300, 32768, 65536)
+
+
+def _other_int(m):
+    """An int equal to m that is ANOTHER object whenever the interpreter can make one (m outside CPython's shared -5..256)."""
+    return int(str(m))
+
+
+def _restart_protocol(sh, new_manager, got, key, where):
+    """The protocol of the only caller of the enumeration (InversionMethod with a bounded log of m states), driven directly
+    on a fresh manager, for every log size m of the menu and every form of the two arguments:
+        project(0) without max_logged (the sampler's constructor);
+        walk 1: x = 1, 2, ... up to the middle of the states beyond the log (the log gets full on the way),
+        walk 2: restart right after the log (x = m, the counter is COMPUTED by the caller: x = len(log) - 1, then x += 1), two states,
+        walk 3: restart, up to exhaustion (signalled exactly when x = number of admissible states),
+        walk 4: restart after exhaustion, three states.
+    Every walk must return the states of ranks start..target of the plain enumeration `got`, each once.
+    Forms: max_logged the very object used as x at the restart ("same-object": project(m, m)), an equal int that is another
+    object (what the sampler does: max_logged is its attribute, x is computed), numpy.int64 as max_logged, numpy.int64 as x,
+    keywords. A form the library rejects is counted, unless it is one of the two the sampler can produce."""
+    n = len(got)
+    ms = {1, n // 2, n - 2} | {t for t in _LOG_THRESHOLDS if t + 4 <= n}
+    forms = ("same-object", "equal-int-other-object", "numpy-int64", "x-numpy-int64", "keywords")
+    if n > 5000:  # one long interval: only the log sizes that need it, the sampler's own form and numpy
+        ms = {t for t in ms if t >= 32768} or {n // 2}
+        forms = ("equal-int-other-object", "numpy-int64")
+    reported = set()
+    for m in sorted(t for t in ms if 1 <= t <= n - 2):
+        logcls = "log<=256" if m <= 256 else ("log>256" if m < 32768 else "log>=32768")
+        for form in forms:
+            vkey = key if (logcls == "log<=256" and form == "same-object") else f"{key}:{logcls}:{form}"
+            if vkey in reported:
+                continue
+            M = m if form == "same-object" else (np.int64(m) if form == "numpy-int64" else _other_int(m))
+
+            def call(sm, x, restart):
+                if form == "same-object" and restart:
+                    x = M  # the same object for both arguments
+                elif form == "x-numpy-int64":
+                    x = np.int64(x)
+                if form == "keywords":
+                    inc, done = sm.project_index_to_state_increment(x=x, max_logged=M)
+                else:
+                    inc, done = sm.project_index_to_state_increment(x, M)
+                sh.count("evaluations")
+                return _key(inc), bool(done)
+
+            def walk(sm, start, target, restart):
+                out = []
+                x = start - 1
+                while x < target:
+                    x = x + 1  # computed, as in sample_with_u: a new int object beyond the interpreter's shared ones
+                    t, done = call(sm, x, restart)
+                    restart = False
+                    if done:
+                        return out, True
+                    out.append(t)
+                return out, False
+
+            t1 = min(n - 1, m + max(2, (n - m) // 2))
+            plan = [(1, t1, False, got[1:t1 + 1], False), (m, m + 1, True, got[m:m + 2], False),
+                    (m, n + 3, True, got[m:], True), (m, min(m + 2, n - 1), True, got[m:m + 3], False)]
+            try:
+                sm2 = new_manager()
+                first = _key(sm2.project_index_to_state_increment(0)[0])
+                results = [walk(sm2, a, b, r) for a, b, r, _, _ in plan]
+            except Exception as e:  # noqa
+                if form in ("same-object", "equal-int-other-object"):
+                    reported.add(vkey)
+                    sh.violation(f"{vkey}:raises-{type(e).__name__}", f"{where}: log of {m} states, arguments as {form}: {e!r}", {"m": m})
+                else:
+                    sh.count(f"form-rejected-by-the-library:states:restart:{form}")
+                continue
+            for j, ((a, b, r, exp, exp_done), (out, done)) in enumerate(zip(plan, results)):
+                if out != exp or done != exp_done or first != got[0]:
+                    reported.add(vkey)
+                    nbad = sum(1 for u, v in zip(out, exp) if u != v) + abs(len(out) - len(exp))
+                    sh.violation(vkey, f"{where}: log of {m} states, arguments as {form}: walk {j + 1} (x = {a}..{b}, max_logged = {m}"
+                                       f"{', a restart' if r else ''}) returns {len(out)} states {out[:4]}..., exhausted = {done}; expected "
+                                       f"{len(exp)} states {exp[:4]}..., exhausted = {exp_done} ({nbad} differ)",
+                                 {"m": m, "form": form, "walk": j + 1, "returned": out[:40], "expected": exp[:40]})
+                    break
+
+
 def _sub_states(sh, case):
     from rpylib.distribution.pairing import (Boundary, Domain, PairingToZ1d, PairingToZd, RectangleBoundary, RosenbergStrong,
                                              SimplexBoundary, StatesManager, Szudzik)
@@ -1079,34 +1195,12 @@ def _sub_states(sh, case):
     # admissible state, a call with x == max_logged == m must resume with the (m+1)-th admissible state, whatever the pointer
     # had reached and however many pairing indices were skipped as inadmissible
     if not (dups or extra or missing) and len(got) >= 4:
-        for m in sorted({1, len(got) // 2, len(got) - 2}):
-            npr.choice = choice
-            try:
-                sm2 = StatesManager(pairing=pairing, domain=domain, grid=grid)
-                seq = []
-                x = 0
-                while x < len(got):  # first pass, as the sampler does it: x counts the admissible states
-                    inc, done = sm2.project_index_to_state_increment(x, m)
-                    if done:
-                        break
-                    seq.append(tuple(int(v) for v in np.atleast_1d(inc)))
-                    x += 1
-                again = []
-                x = m
-                while x < len(got):
-                    inc, done = sm2.project_index_to_state_increment(x, m)
-                    sh.count("evaluations")
-                    if done:
-                        break
-                    again.append(tuple(int(v) for v in np.atleast_1d(inc)))
-                    x += 1
-            finally:
-                npr.choice = orig_choice
-            if seq != got or again != got[m:]:
-                sh.violation(f"C14:states:d{dim}:{equal}:{sym}:restart-after-last-logged-state-does-not-resume-there",
-                             f"shape {shape}: first pass {seq[:6]}..., restart at x = max_logged = {m} gives {again[:6]}... instead of {got[m:m + 6]}...",
-                             {"m": m, "restart": again, "expected": got[m:]})
-                break
+        npr.choice = choice
+        try:
+            _restart_protocol(sh, lambda: StatesManager(pairing=pairing, domain=domain, grid=grid), got,
+                              f"C14:states:d{dim}:{equal}:{sym}:restart-after-last-logged-state-does-not-resume-there", f"shape {shape}")
+        finally:
+            npr.choice = orig_choice
     sh.outcome((tuple(shape), bnd, tuple(got[:4]), len(got)))
     sh.nontriv()
     sh.cls(f"states:d{dim}:boundary-{bnd}")
@@ -1259,7 +1353,8 @@ def _sub_inversion(sh, case):
         walked.append(_key(inc))
         return 1e-4
 
-    K = {"one": 1, "two": 2, "half": n // 2, "all-but-two": n - 2}.get(storage)
+    # (a bound given in figures is built at run time: an int object of its own, as the sampler's attribute is)
+    K = int(storage) if storage.isdigit() else {"one": 1, "two": 2, "half": n // 2, "all-but-two": n - 2}.get(storage)
     if K is not None and not (1 <= K <= n - 2):
         sh.count("skipped-log-bound-not-below-number-of-states")
         return
@@ -1288,7 +1383,8 @@ def _sub_inversion(sh, case):
         targets = {"first": 0, "last-logged": keff - 1, "first-beyond": keff, "second-beyond": min(keff + 1, n - 1),
                    "mid-beyond": (keff + n) // 2, "last": n - 1, "exhaust": None}
         names = _TARGETS_BOUNDED
-        logcls = "log-full"
+        # (the size class of the log is part of the key: 256 is the last int object the interpreter shares)
+        logcls = "log-full" if keff <= 256 else ("log-full:log>256" if keff < 32768 else "log-full:log>=32768")
     if depth:
         words = list(itertools.product(names, repeat=depth))
     else:
